@@ -1118,6 +1118,14 @@ def direct_binding_verdict(key, fname):
         if p.kind() in ("charp", "string", "charpp") or p.tname == "bool":
             return ("%s has no Fortran procedure (its name is bound directly to the C function) although argument '%s' (%s) "
                     "needs one: a character actual argument would reach C without its terminating NUL / length" % (fname, p.name, p.tname))
+    # the result: a pointer result the documentation turns into a value (+deref(scalar)) must be bound to a C function that
+    # dereferences it - the library function itself returns the address
+    if f.ast.is_pointer() and f.ast.attrs["deref"] == "scalar":
+        text = "".join(t for n, t in fb.files.items() if n.endswith(".f"))
+        m = re.search(r'(?is)\bfunction\s+%s\s*\([^)]*\)\s*&?\s*(?:result\s*\(\w+\)\s*&?\s*)?bind\(C,\s*name="(\w+)"\)' % re.escape(fname), text)
+        if m and m.group(1) == f.ast.name:
+            return ("%s returns the value its pointer result designates (+deref(scalar)) but its interface is bound straight to the "
+                    "library function %s, which returns the address: the caller reads address bits as the value" % (fname, m.group(1)))
     return None
 
 
